@@ -197,7 +197,14 @@ func firstDiag(stderr string) string {
 
 // ------------------------------------------------------------------------------------------------ C18
 
-var bindingNames = []string{"alpha", "b2", "_x", "নাম", "মান_১", "গণনা", "কখগ", "সময়", "q9_", "Zed", "বয়স", "ফল", "ড়ঢ়"}
+var bindingNames = []string{"alpha", "b2", "_x", "\u09a8\u09be\u09ae", "\u09ae\u09be\u09a8_\u09e7", "\u0997\u09a3\u09a8\u09be", "\u0995\u0996\u0997",
+	"\u09b8\u09ae\u09df", // precomposed U+09DF: NFC would rewrite this name
+	"q9_", "Zed",
+	"\u09ac\u09df\u09b8", // U+09DF again
+	"\u09ab\u09b2",
+	"\u09dc\u09dd",             // U+09DC U+09DD (composition exclusions)
+	"\u0995\u09c7\u09be",       // U+09C7 U+09BE: NFC composes these two marks to U+09CB
+	"e\u0301x"}                   // e + combining acute
 
 func isPropName(toks []string, i int) bool {
 	if i > 0 && toks[i-1] == "." {
@@ -234,7 +241,7 @@ type transform struct {
 func tokensCopy(t []string) []string { return append([]string(nil), t...) }
 
 func layoutSource(toks []string, rng *rand.Rand, o *RenderOpts) string {
-	seps := []string{" ", "  ", "\t", " \t ", " /* c */ ", "/**/", "\n", "\n\n", " // note\n", "\r\n", " /* multi\nline */ "}
+	seps := []string{" ", "  ", "\t", " \t ", " /* c */ ", "/**/", "\n", "\n\n", " // note\n", "\r\n", " /* multi\nline */ ", "/***/", " /** doc **/ ", " /* a * b ** c */ ", " /*/ x /*/ ", " //\n"}
 	sameLine := []string{" ", "  ", "\t", " /* c */ ", "/**/ "}
 	var b strings.Builder
 	inVar := false
